@@ -441,12 +441,14 @@ def vi_plan(line, lay, rng):
     return plan
 
 
-def vi_observe(vi, line, opt, plan, timeout=40):
-    """one editor run: the line once per planned motion; returns the list of observed offsets or a text"""
-    data = rc.enc(line) * len(plan)
+def vi_observe(vi, block, tgt, opt, plan, timeout=40):
+    """one editor run: the lines of `block` once per planned motion, the motion starts on the first line of its
+    copy and must end on line `tgt` of it; returns the list of observed offsets there (-1: no single marker in
+    that line or another line changed) or a text"""
+    data = b''.join(rc.enc(ln) for ln in block) * len(plan)
     keys = b':se order=%d\n:se td=%d\n:se lim=%d\n' % opt
     for j, (k, _e, _t) in enumerate(plan):
-        keys += b'%dG%sr%c' % (j + 1, k.encode(), MARK)
+        keys += b'%dG%sr%c' % (j * len(block) + 1, k.encode(), MARK)
     keys += b':w! out\n:q!\n'
     r = vlib.run_vi(vi, keys, files={'t': data}, args=['t'], readback=['out'], timeout=timeout)
     if r.timed_out:
@@ -462,16 +464,24 @@ def vi_observe(vi, line, opt, plan, timeout=40):
     if out is None:
         return 'the editor did not write the buffer'
     rows = out.split(b'\n')[:-1]
-    if len(rows) != len(plan):
-        return 'the written buffer has %d lines instead of %d' % (len(rows), len(plan))
+    if len(rows) != len(plan) * len(block):
+        return 'the written buffer has %d lines instead of %d' % (len(rows), len(plan) * len(block))
     obs = []
-    for row in rows:
-        try:
-            u = [ord(ch) for ch in row.decode('utf-8')]
-        except UnicodeDecodeError:
-            obs.append(-2)
-            continue
-        obs.append(u.index(MARK) if u.count(MARK) == 1 and len(u) == len(line) - 1 else -1)
+    for j in range(len(plan)):
+        got = -1
+        ok = True
+        for i, ln in enumerate(block):
+            row = rows[j * len(block) + i]
+            if i != tgt:
+                ok = ok and row + b'\n' == rc.enc(ln)
+                continue
+            try:
+                u = [ord(ch) for ch in row.decode('utf-8')]
+            except UnicodeDecodeError:
+                continue
+            if u.count(MARK) == 1 and len(u) == len(ln) - 1:
+                got = u.index(MARK)
+        obs.append(got if ok else -1)
     return obs
 
 
@@ -488,13 +498,80 @@ def vi_one(cl, sp, probe, vi, line, opt, seed):
     if lay is None or len(line) < 2:
         return None
     plan = vi_plan(line, lay, vlib.Rng(seed))
-    obs = vi_observe(vi, line, opt, plan)
+    obs = vi_observe(vi, [line], 0, opt, plan)
     if isinstance(obs, str):
         return (obs, None, None, None, len(plan))
     for (k, want, text), got in zip(plan, obs):
         if got != want:
             return ('vi -v: %s; the cursor is on character %d, expected %d' % (text, got, want), want, got, k, len(plan))
     return (None, None, None, None, len(plan))
+
+
+def vi_pair_plan(la, lb, laya, layb, rng):
+    """motions on line A followed by j: the cursor keeps its column -- the column asked for by N|, the column of the
+    character reached by h / l -- and lands on the character of line B that covers it"""
+    visa, starta, ctxa = laya
+    visb, startb, _ctxb = layb
+    na, nb = len(la), len(lb)
+    posa = {i: starta[k] for k, i in enumerate(visa)}
+    visidx = {i: k for k, i in enumerate(visa)}
+
+    def noeol(line, o):
+        n = len(line)
+        if o >= n:
+            o = max(0, n - 1)
+        return o - 1 if o > 0 and line[o] == NL else o
+
+    def cover(vis, start, p):
+        k = 0
+        for j in range(len(vis)):
+            if start[j] <= p:
+                k = j
+        return vis[k]
+
+    def move(off, key, cnt):
+        d = (1 if key == 'l' else -1) * (1 if ctxa >= 0 else -1)
+        k = visidx[off]
+        for _ in range(cnt):
+            k2 = k + d
+            if k2 < 0 or k2 >= na or la[visa[k2]] == NL:
+                break
+            k = k2
+        return noeol(la, visa[k])
+    plan = []
+    top = max(starta[-1], startb[-1]) + 3
+    cols = list(range(1, top + 1)) if top <= 40 else list(range(1, 12)) + sorted(set(rng.range(12, top) for _ in range(16)))
+    for N in cols:
+        plan.append(('%d|j' % N, noeol(lb, cover(visb, startb, N - 1)), '%d| then j: the character of the next line covering column %d' % (N, N - 1)))
+    offs = list(range(na - 1)) if na <= 10 else sorted(set([0, na - 2] + [rng.below(na - 1) for _ in range(6)]))
+    for s0 in offs:
+        for key in 'lh':
+            at = move(s0, key, 1)
+            plan.append(('%d|%sj' % (posa[s0] + 1, key), noeol(lb, cover(visb, startb, posa[at])),
+                         '%s from character %d then j: the character of the next line covering column %d (where character %d starts)' % (key, s0, posa[at], at)))
+    return plan
+
+
+def vi_pair_one(cl, sp, probe, vi, la, lb, opt, seed):
+    o, _m, _q, e = rc.run_ren(probe, None, [req(la, opt), req(lb, opt)], chunks=1)
+    if e or o[0] is None or o[1] is None or len(la) < 2 or len(lb) < 2:
+        return None
+    laya = vi_layout(cl, sp, la, opt, rc.parse_obs(o[0]))
+    layb = vi_layout(cl, sp, lb, opt, rc.parse_obs(o[1]))
+    if laya is None or layb is None:
+        return None
+    plan = vi_pair_plan(la, lb, laya, layb, vlib.Rng(seed))
+    obs = vi_observe(vi, [la, lb], 1, opt, plan)
+    if isinstance(obs, str):
+        return (obs, None, None, None, len(plan))
+    for (k, want, text), got in zip(plan, obs):
+        if got != want:
+            return ('vi -v: %s; the cursor is on character %d of it, expected %d' % (text, got, want), want, got, k, len(plan))
+    return (None, None, None, None, len(plan))
+
+
+def vi2_req(la, lb, opt):
+    return 'vi2 %s %s %d %d %d' % (vlib.hx(rc.enc(la)), vlib.hx(rc.enc(lb)), opt[0], opt[1], opt[2])
 
 
 def gen_vi(ctx):
@@ -540,7 +617,7 @@ def gen_vi(ctx):
     return [(cs + [NL], opt) for cs, opt in cases]
 
 
-def vi_stream(ctx, cl, probe, vi, cases):
+def vi_stream(ctx, cl, probe, vi, cases, pairs=None):
     res = ctx.res
     try:
         from props import c18
@@ -578,6 +655,39 @@ def vi_stream(ctx, cl, probe, vi, cases):
                        })
     for (line, opt) in cases[:400:97]:
         res.sample({'request': vi_req(line, opt)})
+    # two different lines: the column survives j
+    pairs = pairs or []
+    pseeds = [int(hashlib.sha256(vi2_req(a, b, opt).encode()).hexdigest()[:12], 16) for a, b, opt in pairs]
+    outs = vlib.pmap(lambda a: vi_pair_one(cl, sp, probe, vi, a[0][0], a[0][1], a[0][2], a[1]), list(zip(pairs, pseeds)))
+    nviol = 0
+    for (la, lb, opt), seed, r in zip(pairs, pseeds, outs):
+        if r is None:
+            continue
+        res.evaluations += r[4]
+        res.count('vi -v motions followed by j (column kept between two lines)', r[4])
+        res.nontriv(vi2_req(la, lb, opt))
+        if r[0] is None:
+            continue
+        nviol += 1
+        if nviol > 3:
+            continue
+        best = (la, lb, r)
+        for which in (0, 1):                   # shrink one line, then the other
+
+            def fails(sub, which=which):
+                if not sub or sub[-1] != NL or NL in sub[:-1]:
+                    return False
+                a, b = (sub, best[1]) if which == 0 else (best[0], sub)
+                r2 = vi_pair_one(cl, sp, probe, vi, a, b, opt, seed)
+                return r2 is not None and r2[0] is not None
+            small = vlib.shrink(best[which], fails, max_steps=40)
+            a, b = (small, best[1]) if which == 0 else (best[0], small)
+            r2 = vi_pair_one(cl, sp, probe, vi, a, b, opt, seed)
+            if r2 is not None and r2[0] is not None:
+                best = (a, b, r2)
+        a, b, r2 = best
+        res.violation({'what': r2[0], 'input': [vi2_req(a, b, opt)], 'line_code_points': [['U+%04X' % c for c in a], ['U+%04X' % c for c in b]],
+                       'options': {'order': opt[0], 'td': opt[1], 'lim': opt[2]}, 'keys': r2[3], 'expected': r2[1], 'observed': r2[2]})
 
 
 def run(ctx):
@@ -598,10 +708,13 @@ def run(ctx):
                 'character; distinct = distinct (line, options)')
     if ctx.replay:
         rp = json.load(open(ctx.replay))
-        cases, mal, vcases = [], [], []
+        cases, mal, vcases, vpairs = [], [], [], []
         for r in rp.get('input', []):
             w = r.split()
-            if w[0] == 'vi':
+            if w[0] == 'vi2':
+                vpairs.append(([ord(ch) for ch in vlib.unhx(w[1]).decode('utf-8')], [ord(ch) for ch in vlib.unhx(w[2]).decode('utf-8')],
+                               (int(w[3]), int(w[4]), int(w[5]))))
+            elif w[0] == 'vi':
                 vcases.append(([ord(ch) for ch in vlib.unhx(w[1]).decode('utf-8')], (int(w[2]), int(w[3]), int(w[4]))))
             elif w[0] == 'ren':
                 b = vlib.unhx(w[1])
@@ -615,11 +728,14 @@ def run(ctx):
                     res.extra.setdefault('replayed_sweep', []).extend(out1[:5])
     else:
         # corpus first
-        cases, mal, corpus_vi = [], [], []
+        cases, mal, corpus_vi, corpus_vi2 = [], [], [], []
         import glob, os
         for f in sorted(glob.glob(os.path.join(vlib.VERIF, 'corpus', 'C17-*.json'))):
             for r in json.load(open(f)).get('input', []):
                 w = r.split()
+                if w and w[0] == 'vi2':
+                    corpus_vi2.append(([ord(ch) for ch in vlib.unhx(w[1]).decode('utf-8')], [ord(ch) for ch in vlib.unhx(w[2]).decode('utf-8')],
+                                       (int(w[3]), int(w[4]), int(w[5]))))
                 if w and w[0] == 'vi':
                     corpus_vi.append(([ord(ch) for ch in vlib.unhx(w[1]).decode('utf-8')], (int(w[2]), int(w[3]), int(w[4]))))
                 if w and w[0] == 'ren':
@@ -630,6 +746,7 @@ def run(ctx):
         cases += gen_lines(ctx)
         mal += gen_malformed(ctx)
         vcases = corpus_vi + gen_vi(ctx)
+        vpairs = corpus_vi2 + [(vcases[i][0], vcases[(i * 7 + 3) % len(vcases)][0], vcases[i][1]) for i in range(0, len(vcases), 2 if ctx.quick else 1)]
     lap('build probes, model, vi')
     reqs = [req(cs, opt) for cs, opt in cases] + [req(b, opt) for b, opt in mal]
     obs, mo, mreq, errs = rc.run_ren(probe, model, reqs)
@@ -699,7 +816,7 @@ def run(ctx):
     for (cs, opt), r, a in list(zip(cases, reqs, obs))[:2000:331]:
         res.sample({'request': r, 'answer': (a or '')[:300]})
     lap('sanitized probe, oracle')
-    vi_stream(ctx, cl, probe, vi, vcases)
+    vi_stream(ctx, cl, probe, vi, vcases, vpairs)
     lap('vi -v stream')
     if not ctx.replay:
         sweep(ctx, cl, probe, model)
